@@ -47,20 +47,16 @@ func ParseWithStartPos(src []byte, filename string, start hcl.Pos) (*hcl.File, h
 		// invalid, we'll return an empty placeholder here so that trying to
 		// extract content from our root body won't produce a redundant
 		// error saying the same thing again in more general terms.
-		fakePos := hcl.Pos{
-			Byte:   0,
-			Line:   1,
-			Column: 1,
-		}
 		fakeRange := hcl.Range{
 			Filename: filename,
-			Start:    fakePos,
-			End:      fakePos,
+			Start:    start,
+			End:      start,
 		}
 		rootNode = &objectVal{
-			Attrs:     []*objectAttr{},
-			SrcRange:  fakeRange,
-			OpenRange: fakeRange,
+			Attrs:      []*objectAttr{},
+			SrcRange:   fakeRange,
+			OpenRange:  fakeRange,
+			CloseRange: fakeRange,
 		}
 	}
 
